@@ -5,7 +5,8 @@
     symbolic execution of the Python method bodies; [place], [vrot], [mmul], [uvplace], [texcoord], [orth] are the
     hand-written specification (Rot/C17Base.v).  Arithmetic is over R: floating-point rounding is outside the model. *)
 From Coq Require Import Reals NArith ZArith List String.
-From SV Require Import Rot.C17Base SM.C17Name SM.C17Rounds SM.C17Subst SM.C17Sites SM.Store SM.StoreCopy SM.C17Frame
+From SV Require Import Rot.C17Base SM.C17Name SM.C17Rounds SM.C17Subst SM.C17Sites SM.Store SM.StoreProofs SM.StoreCopy
+                       SM.StoreCopyProofs SM.C17Frame
                        Gen.C17Formulas_gen
                        Rot.C17GeomProofs SM.C17NameProofs SM.C17RoundsProofs SM.C17SubstProofs SM.C17SitesProofs
                        SM.C17FrameProofs.
@@ -207,6 +208,24 @@ Theorem c17_template_intact : forall (c : census) h h' la lc nd nd',
   fields_rel h h' (ck c) (nfields nd) (nfields nd') ->
   forall ms h'' R, steps (h', [lc]) ms (h'', R) -> forall n, unfold n h'' (VRef la) = unfold n h' (VRef la).
 Proof. exact template_intact. Qed.
+
+(** ... and so does ANY number of collapses of the same template, in any order, interleaved with any work on the copies
+    made so far ([collapses]: a collapse adds a root that reaches only new mutable locations — the conclusion of C09's
+    [census_copy_new_mut] for a fresh census; in between, arbitrary in-place stores / allocations through the roots):
+    every observation of the template object is unchanged and the template stays separated from all copies. *)
+Theorem c17_template_intact_any_number_of_collapses : forall a h R h' R',
+  collapses h R h' R' ->
+  closed h -> alloc h a -> StoreProofs.roots_alloc h R -> sep h a R ->
+  (forall n, unfold n h' (VRef a) = unfold n h (VRef a)) /\ sep h' a R' /\ closed h' /\ alloc h' a /\ StoreProofs.roots_alloc h' R'.
+Proof. exact template_intact_any_number_of_collapses. Qed.
+
+(** the step that feeds [col_copy]: C09's census theorem for a copy built as a fresh census says *)
+Theorem c17_fresh_census_copy_is_new : forall (c : census) h h' la lc nd nd',
+  closed h -> extends h h' -> h la = Some nd -> h lc = None -> h' lc = Some nd' ->
+  copy_fresh_mutables c = true ->
+  fields_rel h h' (ck c) (nfields nd) (nfields nd') ->
+  new_mut h h' (VRef lc).
+Proof. exact StoreCopyProofs.census_copy_new_mut. Qed.
 
 (** ... and the census booleans the check evaluates give that premise for the classes collapse_one copies, and say
     that every field Side.localise / Solid.localise modify in place was copied deeply. *)
